@@ -79,9 +79,6 @@ Definition OfTensor (t : list R) : M3 :=
 (* k-th block of n entries of a concatenated output *)
 Definition block (n k : nat) (l : list R) : list R := firstn n (skipn (k * n) l).
 
-(* matrices whose shape makes sense for a change of basis in dimension 2 (rotation about z) *)
-Definition planar (m : M3) : Prop :=
-  ent m 0 2 = 0 /\ ent m 1 2 = 0 /\ ent m 2 0 = 0 /\ ent m 2 1 = 0 /\ ent m 2 2 = 1.
 
 (* the (i,j) index pairs in the order of the unsymmetric tensor storage; dimension 1 uses the first 3, 2 the first 5 *)
 Definition pairs : list (nat * nat) := [(0,0); (1,1); (2,2); (0,1); (1,0); (0,2); (2,0); (1,2); (2,1)]%nat.
